@@ -147,3 +147,18 @@ def _replacetabledata_keeps_references(v):
   if not str(v.get("clause", "")).startswith("C10."):
     return False
   return any(u and u[0] == "ReplaceTableData" for u in (ctx.get("uas") or []))
+
+
+@matcher("twoway_bulk_update_repeated_row")
+def _twoway_bulk_update_repeated_row(v):
+  """
+  A BulkUpdateRecord naming a row twice writes a two-way column: the reverse adjustments
+  (reverse_references.get_reverse_adjustments) of every occurrence are computed from the values before
+  the action, so the other side keeps what an earlier occurrence added and a later one dropped.
+  """
+  if v.get("clause") != "C11.symmetric":
+    return False
+  for u in (v.get("context", {}).get("uas") or []):
+    if u and u[0] == "BulkUpdateRecord" and len(u) > 2 and isinstance(u[2], list) and len(set(u[2])) < len(u[2]):
+      return True
+  return False
